@@ -819,7 +819,9 @@ Proof.
   cbv zeta.
   destruct (lex_extension (lex_set_extension src [])) as [e|] eqn:E1;
     [destruct (str_eqb e TXTPP_EXT)|];
-    try (intros H; inversion H; rewrite ?lex_set_extension_parent; reflexivity).
+    try (destruct (stem_ok (lex_set_extension src [])) eqn:Hok; [|discriminate];
+         intros H; inversion H; rewrite ?lex_set_extension_parent; reflexivity).
+  destruct (negb (stem_ok (lex_set_extension (lex_set_extension src []) []))); [discriminate|].
   destruct (lex_extension src) as [se|] eqn:E0; [|discriminate].
   destruct (lex_extension_some _ _ E0) as (d & n & Hsrc & Hn). subst src. unfold name in *.
   rewrite (lex_set_extension_nil_shape d n Hn) in *.
@@ -1099,4 +1101,34 @@ Proof.
     + destruct He as [He _]. discriminate.
     + discriminate.
   - intros e He. rewrite L, skipn_app_exact in He. rewrite Forall_forall in F. apply F. exact He.
+Qed.
+
+(* ------------------------------------------------------------------ *)
+(* fix F8: a source without an output path is refused (OpenFile) with the world untouched; in particular
+   the sources whose stem is `.` (`..txtpp`, `..txtpp.ext`, `..txtpp.txtpp`), for which IOCtx::new finds
+   an output path without file name or outside the source's directory
+   (PathFacts is imported only here, so nothing above is affected) *)
+Require Import Txtpp.proofs.PathFacts.
+
+Theorem pp_run_no_output_refused orc md base src first tn w :
+  remove_txtpp src = None -> pp_run orc md base src first tn w = PpErr KOpen w.
+Proof.
+  intros H. unfold pp_run. destruct (read_file (w_fs w) src) as [raw|]; [|reflexivity].
+  rewrite H. reflexivity.
+Qed.
+
+Theorem pp_run_dot_stem_refused orc md base src first tn w :
+  dot_stem src = true -> pp_run orc md base src first tn w = PpErr KOpen w.
+Proof.
+  intros H. apply pp_run_no_output_refused. apply remove_txtpp_none_iff. right. exact H.
+Qed.
+
+Theorem dot_stem_sources_are_refused_by_pp_run orc md base dir first tn w :
+  pp_run orc md base (dir ++ [[DOT; DOT] ++ TXTPP_EXT]) first tn w = PpErr KOpen w /\
+  (forall ext, ~ In DOT ext ->
+     pp_run orc md base (dir ++ [[DOT; DOT] ++ TXTPP_EXT ++ DOT :: ext]) first tn w = PpErr KOpen w) /\
+  pp_run orc md base (dir ++ [[DOT; DOT] ++ TXTPP_EXT ++ DOT :: TXTPP_EXT]) first tn w = PpErr KOpen w.
+Proof.
+  destruct (dot_stem_sources_are_refused dir) as (H1 & H2 & H3).
+  split; [|split]; [|intros ext He|]; apply pp_run_no_output_refused; auto.
 Qed.
